@@ -1295,13 +1295,17 @@ class C02(Prop):
     driver = "drv_c02"
     modelled_not_verified = [
         "pickle: value fidelity across pickle.dumps/loads is VALIDATED DIFFERENTIALLY (sampled values), NOT PROVED; the "
-        "theorems assume decode (encode v) = some v for the values of the call",
+        "theorems assume decode (encode v) = some v for the values of the call; __cause__/__context__ of an exception are "
+        "not carried by pickle (observed and recorded; type, args and attributes are compared)",
         "framing of the pickled bytes (identity in this model; property C06 owns it), the OS socket / simulated network",
         "Python argument binding of the generated lambda stubs (*args/**kwargs against the helper signature) is modelled by "
-        "stubKwargs; the helper parameter list is regenerated from the AST on every run",
-        "_RpcThread's request FIFO and threads (C01/C03), the lock protocol itself (C04); here the lock state is an input of dispatch",
-        "failure branches of _SocketManager.send_message (message cannot be pickled / is too big / OS error: error reply to the "
-        "requester, and, since the C01 repair, an error reply in place of a lost reply) belong to C01; pickle.dumps is total in this model",
+        "stubKwargs; binding kind and helper parameter list are regenerated from the AST on every run",
+        "_RpcThread's request FIFO and threads (C01/C03); the lock protocol of the object (C04) — here the object's lock state is "
+        "an input of dispatch, the proxy side (which token both stubs forward) is modelled (ProxyTokens) and checked",
+        "time: a deadline is modelled as the moment waitUntilDeadline is evaluated; the virtual clock of the scheduler decides "
+        "when that is (real clock in the loopback-TCP tier)",
+        "failure branches of _SocketManager.send_message (message cannot be pickled / is too big / OS error) belong to C01; "
+        "pickle.dumps is total in this model (the trace driver only checks the address rewrite of such a send)",
     ]
     extra_trusted = [
         "assumption named by proxy_eq_direct: pickle round-trips the argument, result and exception values of the call "
@@ -1630,14 +1634,14 @@ class C02(Prop):
             self._corpus(ctx, res, seen, lines, outs, spans)
             self._timeouts(ctx, res, ctx.scale(50, 500), seen, lines, outs, spans)
             ctx.log(f"fixed corpus and rpc_timeout scenarios done, {len(res.failures)} failing signatures")
-            self._scripts(ctx, res, ctx.scale(200, 2000), 8, seen, lines, outs, spans)
+            self._scripts(ctx, res, ctx.scale(180, 2000), 8, seen, lines, outs, spans)
             ctx.log(f"scripts done: {res.evaluations} calls compared, {len(res.failures)} failing signatures")
-            self._concurrent(ctx, res, ctx.scale(340, 3000), seen, lines, outs, spans, thorough=not ctx.quick)
+            self._concurrent(ctx, res, ctx.scale(300, 3000), seen, lines, outs, spans, thorough=not ctx.quick)
             ctx.log(f"concurrent scenarios done ({len(lines)} trace lines)")
             # client churn.  (When a client disconnects with calls pending, the server's worker thread and its socket
             # thread race on the peer map — `send` may or may not still see the connection — so those scenarios are
             # judged by the outcome oracle only; the quiescent-churn ones are also replayed on the Lean model.)
-            self._churn(ctx, res, ctx.scale(90, 700), seen, lines, outs, spans, thorough=not ctx.quick)
+            self._churn(ctx, res, ctx.scale(80, 700), seen, lines, outs, spans, thorough=not ctx.quick)
             ctx.log(f"client churn scenarios done ({len(lines)} trace lines)")
             self._diff(res, lines, outs, spans)
             # many futures outstanding at once in one context (address uniqueness far beyond a handful of callers)
